@@ -30,12 +30,12 @@ fn syms_for(k: usize) -> Vec<usize> {
     }
 }
 
-fn check_f(ctx: &mut Ctx, sp: &Space<usize>, tt: u64) {
+fn check_f(ctx: &mut Ctx, sp: &Space<usize>, tt: u64, foreign: bool) {
     let k = sp.k;
     let f = sp.get(tt);
     let env = sp.env.clone();
     for (fi, filter) in [TruthTableEntry::True, TruthTableEntry::False, TruthTableEntry::Any].into_iter().enumerate() {
-        let case = json!({"part": "api", "k": k, "f": tt, "filter": fi});
+        let case = json!({"part": "api", "k": k, "f": tt, "filter": fi, "foreign": foreign});
         ctx.begin_case(|| case.clone());
         ctx.count("evaluations", 1);
         let key = format!("{TAG} api syms={:?}: retain(f={tt:#x}, {:?})", sp.syms, filter);
@@ -69,7 +69,7 @@ fn check_f(ctx: &mut Ctx, sp: &Space<usize>, tt: u64) {
             }
         }
         let nodes = env.nodes.borrow();
-        for n in robdd::distinct_nodes(&g) {
+        for n in robdd::distinct_nodes(&g).into_iter().filter(|_| !foreign) {
             if !nodes.get(n.as_ref()).map(|e| Rc::ptr_eq(e, &n)).unwrap_or(false) {
                 c.push(format!("sub-diagram {} of the result is not the shared table node", robdd::show(&n)));
                 break;
@@ -139,9 +139,15 @@ fn run(ctx: &mut Ctx) {
             Ok(sp) => {
                 for tt in 0..sp.nfun() as u64 {
                     if ctx.mine(tt) {
-                        check_f(ctx, &sp, tt);
+                        check_f(ctx, &sp, tt, false);
                     }
                 }
+            }
+        }
+        let spf = Space::<usize>::by_foreign(&syms_for(k));
+        for tt in 0..spf.nfun() as u64 {
+            if ctx.mine(tt + 1) {
+                check_f(ctx, &spf, tt, true);
             }
         }
     }
@@ -164,8 +170,10 @@ fn replay(ctx: &mut Ctx, c: &Value) {
         crate::cli::cleanup_scratch();
     } else {
         let k = c["k"].as_u64().unwrap_or(4) as usize;
-        if let Ok(sp) = Space::<usize>::by_interning(&syms_for(k)) {
-            check_f(ctx, &sp, c["f"].as_u64().unwrap_or(0));
+        if c["foreign"].as_bool().unwrap_or(false) {
+            check_f(ctx, &Space::<usize>::by_foreign(&syms_for(k)), c["f"].as_u64().unwrap_or(0), true);
+        } else if let Ok(sp) = Space::<usize>::by_interning(&syms_for(k)) {
+            check_f(ctx, &sp, c["f"].as_u64().unwrap_or(0), false);
         }
     }
 }
